@@ -12,11 +12,23 @@ with a scheduled loader batch size, a tiny real AttentionModel (eval mode) wrapp
 environment's get_reward tapped.  History check per instance i: reported reward == independent
 objective of the reported actions on the ORIGINAL instance i (inter-batch zero padding stripped) == max
 over the candidates that were rolled out for instance i; reported actions are one of these candidates;
-for greedy and augmentation methods the report is never worse than solo greedy decoding."""
+for greedy and augmentation methods the report is never worse than solo greedy decoding.
+
+Part C (instead of B, 20% of the eligible runs): the POMO / SymNCO modules' own test-phase best-of-k.
+
+Part D (instead of B, ~8% of the runs, tsp / cvrp with 5-7 nodes): the test-time SEARCH methods
+``ActiveSearch`` and ``EASEmb`` / ``EASLay`` (sampling x multi-start x augmentation over several iterations
+with an incumbent per instance), driven without a Trainer (train_util.shim) under a virtual clock that
+replaces the name ``time`` inside the search modules.  Every rollout of every iteration is recorded;
+per instance: reported max reward == max over ALL recorded rollouts of all iterations, the stored
+(zero-padded) solution is one of the rollouts attaining it, and its objective on the ORIGINAL instance
+equals the reported reward.  In ~25% of these runs the clock jumps past ``max_runtime`` at a scheduled
+iteration: the search must stop there and still report the maximum over the rollouts made so far."""
 from __future__ import annotations
 
 import contextlib
 import copy
+import importlib
 import io
 import math
 
@@ -24,7 +36,7 @@ import torch
 
 from .. import envs as E
 from .. import infer_util as U
-from ..kernel import HarnessError, StopRun, Streams, innermost_project_frame
+from ..kernel import HarnessError, StopRun, Streams, innermost_project_frame, patched
 from ..ref.routing import make_ref
 
 ENVS = ["tsp", "cvrp", "sdvrp", "pdp", "op", "pctsp"]  # not mtsp: tasks/eval.py re-scores on the reset state, which mTSP minmax cannot do (observation, DESIGN 10.3)
@@ -32,6 +44,8 @@ METHODS = ["greedy", "sampling", "multistart_greedy", "augment", "augment_dihedr
            "multistart_greedy_augment", "multistart_greedy_augment_dihedral_8"]
 COPY0_TOL = 1e-6  # coordinates of the identity copy: equal up to float32 rounding of (x - 0.5) + 0.5
 COORD_MODES = ["generator", "generator", "corners", "dyadic", "cluster", "collinear"]
+SEARCH_ENVS = ["tsp", "cvrp"]  # part D
+SEARCH_ALGOS = ["active_search", "active_search", "active_search", "eas_emb", "eas_lay"]
 
 
 def _tol(ref: float, n: int) -> float:
@@ -56,34 +70,65 @@ class C15:
             "first_aug_identity on/off) applied to a scheduled batch with a scheduled action sequence, and (B) "
             "one evaluation (method of 7, loader batch size that may not divide the dataset, num_starts, "
             "num_augment, samples, select_best, evaluate_policy or the *Eval class directly, env injected or "
-            "default-built by the policy) of a tiny seeded AttentionModel in eval mode.  Non-trivial = the "
-            "evaluation produced >= 2 candidates for some instance or >= 2 loader chunks; distinct = distinct "
-            "event-log digest.")
+            "default-built by the policy) of a tiny seeded AttentionModel in eval mode; or, instead of (B), (C) "
+            "one POMO / SymNCO test step, or (D, ~8% of the runs, tsp / cvrp with 5-7 nodes) one test-time "
+            "search: ActiveSearch (batch 1) or EASEmb / EASLay (batch 2) over 1-4 of the instances x max_iters "
+            "2-5 x augment_size {1,2,4} symmetric or 8 dihedral x policy in train or eval mode x virtual-clock "
+            "step x (25%) a clock jump past max_runtime at a scheduled (batch, iteration).  Non-trivial = the "
+            "evaluation produced >= 2 candidates for some instance or >= 2 loader chunks, or the search ran >= 2 "
+            "iterations; distinct = distinct event-log digest.")
     components_real = ["rl4co.data.transforms (StateAugmentation, symmetric_augmentation, dihedral_8_augmentation)",
                        "rl4co.tasks.eval (evaluate_policy, EvalBase.__call__, GreedyEval, SamplingEval, "
                        "AugmentationEval, GreedyMultiStartEval, GreedyMultiStartAugmentEval)",
                        "rl4co.utils.ops (batchify, unbatchify, gather_by_index, select_start_nodes)",
                        "rl4co.utils.decoding (multistart / multisample hooks, _select_best)",
                        "AttentionModelPolicy (tiny, eval mode)", "env.dataset_cls + DataLoader + collate_fn",
+                       "rl4co.models.zoo.pomo / symnco shared_step(phase='test')",
+                       "rl4co.models.zoo.active_search.search.ActiveSearch and rl4co.models.zoo.eas.search.EASEmb / "
+                       "EASLay (setup, train_dataloader, on_train_batch_start, training_step, on_train_batch_end, "
+                       "on_train_epoch_end; real StateAugmentation, multistart sampling, loss backward, "
+                       "configure_optimizers), rl4co.models.zoo.eas.decoder.forward_eas",
                        "rl4co.envs reset/step/get_reward of 6 routing environments"]
     components_stub = ["policy weights: seeded random initialisation instead of a trained checkpoint",
                        "PolicyTap wrapper (records forward calls; hands the evaluation's env to the policy when "
                        "the evaluation class passes none - in 30% of the runs without constructor modes the "
                        "policy builds its default env as in real usage)",
-                       "env.get_reward tap (records candidate action sets)"]
+                       "env.get_reward tap (records candidate action sets)",
+                       "Trainer: train_util.shim (log / log_dict swallowed, optimizers() = the module's own "
+                       "configure_optimizers, manual_backward = loss.backward) and a hand-driven batch loop in place "
+                       "of Trainer.fit for the POMO / SymNCO test step and the search modules",
+                       "virtual clock: the name `time` inside rl4co.models.zoo.active_search.search / "
+                       "rl4co.models.zoo.eas.search is replaced by a harness-owned object whose time() advances by a "
+                       "fixed scheduled step per call (and by a scheduled jump past max_runtime); no wall clock",
+                       "policy.forward wrapper / forward_eas wrapper (record actions and rewards of every search "
+                       "iteration)"]
     assumptions = ["CPU float32", "StateAugmentation is applied to a reset state, as every caller in the library "
                    "does (locs then holds the depot at index 0, so depot and customers undergo the same map)",
                    "SamplingEval(select_best=False) is an explicit opt-out of best-of-k: only the objective "
                    "clause is checked there", "solo-greedy clause is skipped (counted) when the identity "
-                   "candidate's greedy rollout differs from the solo one (C14's business)"]
+                   "candidate's greedy rollout differs from the solo one (C14's business)",
+                   "search (part D): num_parallel_runs = 1, save_path = None, the search modules read the clock "
+                   "only through `time.time()` of their module-level `time` name (any other attribute of the "
+                   "virtual clock raises a harness error); augment_dihedral implies augment_size 8 (documented "
+                   "constraint of StateAugmentation); EAS with batch_size >= 2, augment_size >= 2 and a dataset "
+                   "size divisible by the batch size; ActiveSearch's reported maximum is compared exactly (it is "
+                   "an element of the recorded rewards), EAS's within the float32 band used for augmented copies "
+                   "(its incumbent is re-scored on every augmented copy)"]
     required_probes = ["aug_rows_checked", "eval_partial_chunk", "eval_padding_stripped", "eval_multi_chunk",
-                       "best_not_first_candidate", "solo_greedy_compared"]
+                       "best_not_first_candidate", "solo_greedy_compared", "search_checked",
+                       "search_later_iteration_worse", "search_clock_jump_stop"]
     excluded = ["mtsp (AttentionModel x mTSP multi-start always raises, DESIGN 7.17), cvrptw/svrp/mtvrp/spctsp: "
                 "not in C15's environment list (reward of spctsp depends on hidden stochastic prizes)",
                 "StateAugmentation(normalize=True): min-max normalisation is not an isometry by design",
                 "StateAugmentation on un-reset data with feats=['locs','depot'] under 'symmetric': each feature "
                 "draws its own rotation (observation only, no caller in the library does this)",
-                "auto_batch_size=True (batch sizes of thousands)"]
+                "auto_batch_size=True (batch sizes of thousands)",
+                "search: environments other than tsp / cvrp, num_parallel_runs > 1 (EAS: shape error by "
+                "construction), save_path (file output), ActiveSearch batch_size > 1 (asserted by the class)",
+                "EAS with an effective batch of one instance (batch_size 1 or a last partial batch) or "
+                "augment_size 1: training_step raises IndexError at `reward.max(dim=2)` after the bare "
+                "`.squeeze()` of the (batch, aug, start) tensors (rl4co/models/zoo/eas/search.py:217-219, 250) - "
+                "a crash before anything is reported, the B=1 squeeze family, not a best-of-k matter"]
     CANARIES = {}
 
     # ---------------------------------------------------------------------------------------------
@@ -132,14 +177,19 @@ class C15:
             lit = {"model": mdl, "fn": fn, "num_augment": 8 if fn == "dihedral8" else rc.choice([2, 3, 4]),
                    "num_starts": rc.randint(2, max(2, min(n, 4))), "seed": rc.randrange(1 << 30)}
             rows = rows[: min(len(rows), 4)]
+        search = None
+        if lit is None and name in SEARCH_ENVS and 5 <= n <= 7 and rc.random() < 0.5:
+            # part D instead of part B: test-time search (incumbent over iterations) under a virtual clock
+            search = _plan_search(rc, len(rows))
         return {"cfg": cfg, "coords": mode, "instances": [E.enc_row(r) for r in rows], "aug": aug,
-                "eval": ev, "policy": spec, "lit": lit}
+                "eval": ev, "policy": spec, "lit": lit, "search": search}
 
     @staticmethod
     def sample(run):
         p = run.plan
         return {"env": p["cfg"], "coords": p["coords"], "n_instances": len(p["instances"]), "aug": p["aug"],
                 "eval": p["eval"], "policy": p["policy"], "instance0": p["instances"][0],
+                "lit": p.get("lit"), "search": p.get("search"),
                 "reported": getattr(run, "reported", None)}
 
     @staticmethod
@@ -169,6 +219,24 @@ class C15:
             p = copy.deepcopy(plan)
             p["aug"]["B"] -= 1
             yield p
+        sr = plan.get("search")
+        if sr:
+            floor = (sr["jump"]["iter"] + 2) if sr.get("jump") else 2
+            if sr["max_iters"] > floor:
+                p = copy.deepcopy(plan)
+                p["search"]["max_iters"] -= 1
+                yield p
+            if sr["N"] > sr["batch_size"]:
+                p = copy.deepcopy(plan)
+                p["search"]["N"] -= sr["batch_size"]
+                if p["search"].get("jump") and p["search"]["jump"]["batch"] * sr["batch_size"] >= p["search"]["N"]:
+                    p["search"]["jump"]["batch"] = 0
+                yield p
+            if sr["augment_size"] in (4, 8):
+                p = copy.deepcopy(plan)
+                p["search"]["augment_size"] = 2
+                p["search"]["augment_dihedral"] = False
+                yield p
 
     # ---------------------------------------------------------------------------------------------
     @staticmethod
@@ -186,6 +254,8 @@ class C15:
             pass  # part B is independent of part A
         if plan.get("lit"):
             check_lit_test_step(run, env, cfg, rows, plan["lit"], plan["policy"])
+        elif plan.get("search"):
+            check_search(run, env, cfg, rows, plan["search"], plan["policy"])
         else:
             check_evaluation(run, env, cfg, rows, plan["eval"], plan["policy"])
 
@@ -310,6 +380,328 @@ def _ltol(ref, n):
     import math
 
     return 1e-4 * max(1.0, abs(ref)) * math.sqrt(max(n, 1))
+
+
+# ------------------------------------------------------------------------------------------------
+# part D: test-time search (ActiveSearch, EASEmb / EASLay) - incumbent over iterations, virtual clock
+# ------------------------------------------------------------------------------------------------
+SEARCH_MODULES = {"active_search": ("rl4co.models.zoo.active_search.search", "ActiveSearch"),
+                  "eas_emb": ("rl4co.models.zoo.eas.search", "EASEmb"),
+                  "eas_lay": ("rl4co.models.zoo.eas.search", "EASLay")}
+CLOCK_EPOCH = 1_700_000_000.0  # where the virtual clock starts (a plausible time.time() value)
+
+
+def _plan_search(rc, n_rows):
+    algo = rc.choice(SEARCH_ALGOS)
+    if n_rows < 2:
+        algo = "active_search"  # EAS needs a batch of two instances (see `excluded`)
+    eas = algo != "active_search"
+    bs = 2 if eas else 1
+    N = min(n_rows, rc.choice([2, 2, 4]) if eas else rc.randint(1, 3))
+    N -= N % bs
+    dihedral = rc.random() < 0.2
+    A = 8 if dihedral else (rc.choice([2, 4]) if eas else rc.choice([1, 2, 4]))  # dihedral8 needs 8 copies
+    max_iters = rc.randint(2, 5)
+    jump = None
+    if rc.random() < 0.25:  # the clock passes max_runtime during iteration `iter` of batch `batch`
+        jump = {"batch": rc.randrange(N // bs), "iter": rc.randrange(max_iters - 1)}
+    return {"algo": algo, "N": N, "batch_size": bs, "max_iters": max_iters, "augment_size": A,
+            "augment_dihedral": dihedral, "max_runtime": rc.choice([3600, 86400]),
+            "clock_step": rc.choice([0.001, 0.5, 2.0]), "jump": jump, "train_mode": rc.random() < 0.5,
+            "baseline": rc.choice(["multistart", "symmetric", "full"]), "seed": rc.randrange(1 << 30)}
+
+
+class _VirtualClock:
+    """Stands in for the name `time` inside rl4co's search modules.  `time()` returns a harness-owned
+    virtual time that advances by a fixed step per call; `jump()` moves it forward (scheduled overrun of
+    max_runtime).  Nothing else of the time module is offered: another use is a harness error."""
+
+    def __init__(self, step):
+        self.step = float(step)
+        self.now = CLOCK_EPOCH
+        self.calls = 0
+
+    def time(self):
+        self.calls += 1
+        self.now += self.step
+        return self.now
+
+    def jump(self, by):
+        self.now += float(by)
+
+    def __getattr__(self, name):
+        if name.startswith("__"):
+            raise AttributeError(name)
+        raise HarnessError(f"search module used time.{name}: not virtualised")
+
+
+class _SearchRecorder:
+    """Every rollout of every iteration of the current batch; fires the scheduled clock jump."""
+
+    def __init__(self, run, clock, jump, max_runtime):
+        self.run, self.clock, self.jump, self.max_runtime = run, clock, jump, max_runtime
+        self.batch = -1
+        self.iters = []
+        self.jumped = False
+
+    def begin_batch(self, b):
+        self.batch, self.iters, self.jumped = b, [], False
+
+    def before_iteration(self):
+        k = len(self.iters)
+        if self.jump and self.jump["batch"] == self.batch and self.jump["iter"] == k:
+            self.clock.jump(self.max_runtime + 1.0)
+            self.jumped = True
+            self.run.fault("clock_jump", self.batch, k)
+
+    def record(self, actions, reward):
+        if not isinstance(actions, torch.Tensor) or not isinstance(reward, torch.Tensor):
+            raise HarnessError("search rollout without actions / reward tensors")
+        self.iters.append((actions.detach().clone(), reward.detach().clone().reshape(-1)))
+
+
+def check_search(run, env, cfg, rows, s, spec):
+    """ActiveSearch / EAS driven batch by batch without a Trainer.  Per instance, after its batch and again
+    on the final report: reported reward == max over all rollouts of all iterations (`search_best_reward`),
+    stored solution == one of the rollouts attaining it (`search_best_actions`), objective of the stored
+    solution on the ORIGINAL instance == reported reward (`search_objective`)."""
+    from ..ref import routing as RR
+    from .. import train_util as TU
+
+    name = cfg["env"]
+    algo = s["algo"]
+    eas = algo != "active_search"
+    scope = f"{algo}/{name}"
+    bs = s["batch_size"]
+    N = min(s["N"], len(rows))
+    N -= N % bs
+    if N < bs:
+        run.probe("search_skipped_too_few_instances")  # shrunk plans only
+        return
+    rows = rows[:N]
+    det = dict(env=name, search=s, cfg=cfg, policy=spec, N=N)
+    with run.guard(scope, "construct policy", promise=False):
+        policy = U.make_policy(spec)
+    td_all = E.batch_of(cfg, [{k: v.clone() for k, v in r.items()} for r in rows])
+    with run.guard(scope, "env.dataset_cls(td)", **det):
+        ds = env.dataset_cls(td_all)
+    modname, clsname = SEARCH_MODULES[algo]
+    mod = importlib.import_module(modname)
+    kw = dict(batch_size=bs, max_iters=s["max_iters"], augment_size=s["augment_size"],
+              augment_dihedral=s["augment_dihedral"], num_parallel_runs=1, max_runtime=s["max_runtime"],
+              save_path=None)
+    if eas:
+        kw.update(baseline=s["baseline"], verbose=False)
+    with run.guard(scope, f"construct {clsname}", promise=False):
+        model = getattr(mod, clsname)(env, policy, ds, **kw)
+    TU.shim(model)
+    model.train(bool(s["train_mode"]))
+    clock = _VirtualClock(s["clock_step"])
+    rec = _SearchRecorder(run, clock, s.get("jump"), float(s["max_runtime"]))
+    run.log.add("search", algo, name, N, bs, s["max_iters"], s["augment_size"], s["augment_dihedral"],
+                s["clock_step"], s.get("jump"))
+
+    # ---- taps: every rollout of every iteration --------------------------------------------------------------
+    stack = contextlib.ExitStack()
+    if eas:
+        orig_eas = mod.forward_eas
+
+        def tapped_forward_eas(decoder, td, *a, **k):
+            rec.before_iteration()
+            out = orig_eas(decoder, td, *a, **k)
+            rec.record(out[1], out[3])  # (logprobs, actions, td, rewards)
+            return out
+
+        stack.enter_context(patched(mod, "forward_eas", tapped_forward_eas))
+    else:
+        orig_forward = policy.forward
+
+        def tapped_forward(*a, **k):
+            rec.before_iteration()
+            o = orig_forward(*a, **k)
+            rec.record(o.get("actions"), o.get("reward"))
+            return o
+
+        policy.forward = tapped_forward
+    stack.enter_context(patched(mod, "time", clock))  # TIME SEAM: the module's `time.time()` is ours
+
+    refs = [RR.make_ref(name, r, cfg) for r in rows]
+    reported = []
+    with stack, torch.enable_grad():
+        torch.manual_seed(s["seed"])
+        with run.guard(scope, "setup()", **det):
+            model.setup()
+        P2 = 2 * int(model.problem_size)
+        rec.begin_batch(-1)  # (setup only peeks at the first batch; no rollout is expected there)
+        with run.guard(scope, "train_dataloader()", **det):
+            batches = list(model.train_dataloader())
+        if len(batches) != N // bs:
+            run.violate(scope, "search_batches", f"{len(batches)} batches for {N} instances at batch size {bs}",
+                        constraint="batch_count", **det)
+            raise StopRun()
+        for i, batch in enumerate(batches):
+            gids = list(range(i * bs, (i + 1) * bs))
+            if batch.batch_size[0] != bs or any(not torch.equal(batch["locs"][j], rows[g]["locs"])
+                                                for j, g in enumerate(gids)):
+                run.violate(scope, "search_batches", f"batch {i} does not hold instances {gids} of the dataset",
+                            constraint="batch_order", batch=i, **det)
+                raise StopRun()
+            rec.begin_batch(i)
+            calls0 = clock.calls
+            torch.manual_seed(s["seed"] + 1 + i)
+            with run.guard(scope, "on_train_batch_start / training_step / on_train_batch_end", batch=i, **det):
+                model.on_train_batch_start(batch, i)
+                out = model.training_step(batch, i)
+                model.on_train_batch_end(out, batch, i)
+            iters = rec.iters
+            n_it = len(iters)
+            run.tick(sum(int(a.numel()) for a, _ in iters))
+            if clock.calls == calls0:
+                raise HarnessError("time seam not reached: the search module did not read the virtual clock")
+            if n_it == 0:
+                raise HarnessError("no rollout recorded during training_step")
+            if n_it >= 2:
+                run.nontrivial = True
+            # ---- the scheduled overrun of max_runtime stops the search at that iteration -----------------------
+            if rec.jumped:
+                want_it = s["jump"]["iter"] + 1
+                if n_it != want_it:
+                    run.violate(scope, "search_runtime_stop",
+                                f"batch {i}: the clock passed max_runtime={s['max_runtime']} during iteration "
+                                f"{s['jump']['iter']} but the search ran {n_it} iterations (max_iters "
+                                f"{s['max_iters']})", constraint="max_runtime", batch=i, iterations=n_it, **det)
+                    raise StopRun()
+                run.probe("search_clock_jump_stop")
+            mr, sol = out["max_reward"], out["best_solutions"]
+            if eas:
+                rep_r, rep_s = model.instance_rewards[-1], model.instance_solutions[-1]
+            else:
+                rep_r, rep_s = model.instance_rewards[i], model.instance_solutions[i]
+            mr = mr.detach().reshape(-1)
+            rep_r, rep_s = rep_r.detach().reshape(-1), rep_s.detach().reshape(-1, P2)
+            if mr.numel() != bs or tuple(sol.shape) != (bs, P2) or rep_r.numel() != bs or rep_s.shape[0] != bs:
+                run.violate(scope, "search_best_reward", f"batch {i}: max_reward of {mr.numel()} entries / "
+                            f"best_solutions {tuple(sol.shape)} for {bs} instances", constraint="shape", batch=i, **det)
+                raise StopRun()
+            if not torch.equal(rep_r, mr.to(rep_r.dtype)) or not torch.equal(rep_s, sol.detach().to(rep_s.dtype)):
+                run.violate(scope, "search_best_reward", f"batch {i}: instance_rewards / instance_solutions after "
+                            f"on_train_batch_end ({rep_r.tolist()}, {rep_s.tolist()}) are not the step's max_reward / "
+                            f"best_solutions ({mr.tolist()}, {sol.tolist()})", constraint="stored_report", batch=i, **det)
+                raise StopRun()
+            line = _check_search_batch(run, scope, name, [refs[g] for g in gids], gids, iters, mr, sol.detach(),
+                                       exact=not eas, det=det)
+            reported.extend(line)
+            run.log.add("search_batch", i, n_it, clock.calls - calls0, _hex(clock.now - CLOCK_EPOCH), line)
+            run.state(scope, n_it, s["augment_size"], bool(rec.jumped))
+        with run.guard(scope, "on_train_epoch_end()", **det):
+            model.on_train_epoch_end()
+    # ---- the final per-instance report ---------------------------------------------------------------------
+    fin_r = torch.as_tensor(model.instance_rewards).detach().reshape(-1)
+    fin_s = torch.as_tensor(model.instance_solutions).detach().reshape(-1, P2)
+    if fin_r.numel() != N or fin_s.shape[0] != N:
+        run.violate(scope, "search_best_reward", f"final report holds {fin_r.numel()} rewards / {fin_s.shape[0]} "
+                    f"solutions for {N} instances", constraint="final_shape", **det)
+        raise StopRun()
+    for g, sol_g, r_hex in reported:
+        if _hex(fin_r[g]) != r_hex or [int(x) for x in fin_s[g].tolist()] != sol_g:
+            run.violate(scope, "search_best_reward", f"instance {g}: final report ({float(fin_r[g])!r}, "
+                        f"{fin_s[g].tolist()}) differs from what its batch reported ({float.fromhex(r_hex)!r}, {sol_g})",
+                        constraint="final_report", instance=g, **det)
+            raise StopRun()
+    run.stats["search_runs:" + algo] += 1
+    run.reported = reported[:12]
+
+
+def _search_key(name, seq, T):
+    """Action list without padding.  TSP: exactly T actions (node 0 is a city) - returns None when
+    something non-zero follows them; depot environments: trailing depot visits change nothing."""
+    seq = [int(x) for x in seq]
+    if name == "tsp":
+        if any(seq[T:]):
+            return None
+        return tuple(seq[:T])
+    return tuple(_strip(seq, True))
+
+
+def _check_search_batch(run, scope, name, refs, gids, iters, mr, sol, exact, det):
+    """One finished batch of B instances: `iters[k] = (actions [R, T_k], rewards [R])`, row r belongs to
+    instance r mod B (runs x augmentations x starts are stacked batch-minor by batchify)."""
+    B = len(gids)
+    out = []
+    for j, g in enumerate(gids):
+        ref = refs[j]
+        cands, iter_best = [], []
+        for k, (acts, rew) in enumerate(iters):
+            R = rew.shape[0]
+            if R % B != 0 or acts.dim() != 2 or acts.shape[0] != R:
+                run.violate(scope, "search_rows", f"iteration {k}: {R} rewards / actions {tuple(acts.shape)} for {B} "
+                            f"instances", constraint="row_count", **det)
+                raise StopRun()
+            al, rl = acts.tolist(), rew.double().tolist()
+            best_k = None
+            for r in range(j, R, B):
+                a, v = al[r], rl[r]
+                # a rollout is scored on an augmented copy: by isometry that is its objective on the original
+                want = ref.objective(_strip_pad(name, list(a)))
+                if not abs(v - want) <= _ltol(want, len(a)):
+                    run.violate(scope, "search_objective",
+                                f"instance {g}, iteration {k}: rollout row {r} is scored {v!r} but its actions {a} are "
+                                f"worth {want!r} on the original instance", constraint="candidate", instance=g,
+                                iteration=k, row=r, got=v, want=want, **det)
+                    raise StopRun()
+                cands.append((k, r, v, a))
+                if best_k is None or v > best_k:
+                    best_k = v
+            if best_k is None or best_k != best_k:
+                run.violate(scope, "search_rows", f"instance {g}, iteration {k}: no finite rollout reward",
+                            constraint="no_candidate", instance=g, iteration=k, **det)
+                raise StopRun()
+            iter_best.append(best_k)
+        top = max(iter_best)
+        got = float(mr[j].double())
+        tol = 0.0 if exact else _ltol(top, 1)
+        later_worse = any(iter_best[k] < max(iter_best[:k]) for k in range(1, len(iter_best)))
+        if later_worse:
+            run.probe("search_later_iteration_worse")
+        # (1) reported reward = maximum over all rollouts of all iterations ---------------------------------------
+        if not abs(got - top) <= tol:
+            run.violate(scope, "search_best_reward",
+                        f"instance {g}: reported max_reward {got!r} is not the maximum {top!r} over its "
+                        f"{len(cands)} rollouts of {len(iters)} iterations (best per iteration {iter_best})",
+                        constraint="max", instance=g, reported=got, best=top, iter_best=iter_best,
+                        equals_last_iteration=bool(got == iter_best[-1]), later_worse=later_worse, **det)
+            raise StopRun()
+        # (2) stored solution = the actions of one of the rollouts attaining that maximum ------------------------
+        stored = [int(x) for x in sol[j].tolist()]
+        T0 = int(iters[0][0].shape[1])
+        key = _search_key(name, stored, T0)
+        winners = {_search_key(name, a, len(a)) for (_k, _r, v, a) in cands if v >= top - tol}
+        if key is None or key not in winners:
+            everyone = {_search_key(name, a, len(a)): (k, r, v) for (k, r, v, a) in reversed(cands)}
+            if key is not None and key in everyone:
+                k, r, v = everyone[key]
+                constraint = "not_argmax"
+                why = f"they are rollout row {r} of iteration {k}, worth {v!r}"
+            else:
+                constraint = "not_a_rollout"
+                why = "they are none of the recorded rollouts" + (" (non-zero padding)" if key is None else "")
+            run.violate(scope, "search_best_actions",
+                        f"instance {g}: stored solution {stored} does not attain the reported maximum {got!r}: {why}",
+                        constraint=constraint, instance=g, stored=stored, reported=got, iter_best=iter_best,
+                        lengths=[int(a.shape[1]) for a, _ in iters], **det)
+            raise StopRun()
+        # (3) its objective on the ORIGINAL instance = the reported reward ----------------------------------------
+        want = ref.objective(_strip_pad(name, list(key)))
+        if not abs(got - want) <= _ltol(want, len(key)):
+            run.violate(scope, "search_objective",
+                        f"instance {g}: reported reward {got!r} but the stored solution {list(key)} is worth {want!r} "
+                        f"on the original instance", constraint="stored_solution", instance=g, reported=got,
+                        objective=want, stored=stored, **det)
+            raise StopRun()
+        run.probe("search_checked")
+        run.probe("search_rollouts", len(cands))
+        out.append([g, stored, _hex(mr[j])])
+    return out
 
 
 # ------------------------------------------------------------------------------------------------
